@@ -339,6 +339,20 @@ func (h *c03Harness) apply(step []string) (applied bool) {
 	return false
 }
 
+// applyT applies an environment step, giving up when it blocks: a step that sets a task's state needs the
+// task's lock, and an evaluator goroutine that never releases it would otherwise block the harness forever.
+func (h *c03Harness) applyT(st []string) (applied, blocked bool) {
+	ch := make(chan bool, 1)
+	go func() { ch <- h.apply(st) }()
+	select {
+	case a := <-ch:
+		return a, false
+	case <-time.After(c03StallTimeout):
+		h.w.Emit(vtr.Rec{"ev": "Stall", "tr": h.tr, "after": "environment step blocked (a task lock is never released): " + fmt.Sprint(st), "evals": map[string]string{}})
+		return false, true
+	}
+}
+
 func runC03Sched(w *vtr.W, tr int, sc *c03Sched) (stalled bool) {
 	h := &c03Harness{w: w, tr: tr, names: map[*Task]string{}, tasks: map[string]*Task{},
 		evals: map[*state]string{}, evStatus: map[string]string{}, waiters: map[string]*c03Waiter{},
@@ -423,7 +437,12 @@ func runC03Sched(w *vtr.W, tr int, sc *c03Sched) (stalled bool) {
 		if st[0] == "start" {
 			applied = start(st[1])
 		} else {
-			applied = h.apply(st)
+			var blocked bool
+			applied, blocked = h.applyT(st)
+			if blocked {
+				stalled = true
+				break
+			}
 		}
 		if !applied {
 			w.Emit(vtr.Rec{"ev": "Skip", "tr": tr, "step": st, "i": i})
@@ -476,7 +495,11 @@ func runC03Sched(w *vtr.W, tr int, sc *c03Sched) (stalled bool) {
 			sort.Strings(gates)
 			for _, t := range acts {
 				for _, s := range []string{"RUNNING", "OK"} {
-					if h.apply([]string{"set", t, s}) {
+					ok, blocked := h.applyT([]string{"set", t, s})
+					if blocked {
+						stalled = true
+					}
+					if ok {
 						progress = true
 						if !h.settle("drain set " + t + " " + s) {
 							stalled = true
@@ -486,7 +509,11 @@ func runC03Sched(w *vtr.W, tr int, sc *c03Sched) (stalled bool) {
 			}
 			for _, k := range gates {
 				e := k[:len(k)-len(taskOfKey(k))-1]
-				if h.apply([]string{"post", e, taskOfKey(k)}) {
+				ok, blocked := h.applyT([]string{"post", e, taskOfKey(k)})
+				if blocked {
+					stalled = true
+				}
+				if ok {
 					progress = true
 					if !h.settle("drain post " + k) {
 						stalled = true
@@ -568,6 +595,10 @@ func TestVerifC03(t *testing.T) {
 	for i, sc := range scheds {
 		if runC03Sched(w, i+1, sc) {
 			stalls++
+			if stalls == 6 {
+				// stalls are already established; do not spend the full patience on every further schedule
+				c03StallTimeout = 3 * time.Second
+			}
 		}
 	}
 	t.Logf("replayed %d schedules, %d stalled, %d records", len(scheds), stalls, w.N)
